@@ -2,6 +2,7 @@ package props
 
 import (
 	"fmt"
+	"math"
 
 	"verif/harness/gen"
 	"verif/harness/mon"
@@ -215,7 +216,7 @@ func genReshape(r *gen.R, validOnly bool) (mon.OpReq, Expect, bool) {
 		target[r.Intn(k)] = -1
 	}
 	if !validOnly && r.Chance(0.3) {
-		switch r.Intn(6) {
+		switch r.Intn(7) {
 		case 0: // count mismatch
 			if k > 0 {
 				target[r.Intn(k)] += int64(r.Range(1, 3))
@@ -239,6 +240,18 @@ func genReshape(r *gen.R, validOnly bool) (mon.OpReq, Expect, bool) {
 				p := r.Perm(k)
 				target[p[0]] = -1
 				target[p[1]] = int64(total + 1 + r.Intn(3))
+			}
+		case 6: // a -1 next to entries whose product overflows int64 (to 0 or to a divisor of the count)
+			huge := [][]int64{{1 << 32, 1 << 32}, {1 << 62, 4}, {3, 6148914691236517206}, {math.MaxInt64, math.MaxInt64}, {1 << 33, 1 << 31}, {5, 3689348814741910324}, {1<<63 - 1, 2}}[r.Intn(7)]
+			target = append([]int64{-1}, huge...)
+			if r.Bool() {
+				target = append(huge, -1)
+			}
+			if r.Chance(0.3) {
+				target = append(target, int64(total))
+			}
+			if r.Chance(0.3) { // no -1 at all: a product that wraps around to the element count
+				target = [][]int64{{int64(total), math.MaxInt64, math.MaxInt64}, {1 << 32, 1 << 32, int64(total)}, {math.MaxInt64, int64(total), math.MaxInt64}}[r.Intn(3)]
 			}
 		case 5: // 0 copies a dim that breaks the count
 			if x.Rank() > 0 && k > 0 {
